@@ -80,27 +80,49 @@ def serWithFlags (x : Nat) (flagBits mask : Nat) : Option (List Nat) :=
       some (bytes.take (bytes.length - 1) ++ [Nat.lor (bytes.getD (bytes.length - 1) 0) mask])
     else some (bytes ++ [mask])
 
-/-- flag kinds: 0 EmptyFlags, 1 TEFlags, 2 SWFlags; returns (flag value as small enum, cleared byte) -/
+/-- flag kinds: 0 EmptyFlags, 1 TEFlags, 2 SWFlags, k = 3..8 a user-defined flags type holding k bits in the top k bits of the
+flag byte (the generic `Flags` API accepts any `BIT_SIZE ≤ 8`); returns (flag value, cleared byte) -/
 def flagsFromU8 (kind : Nat) (b : Nat) : Option (Nat × Nat) :=
   match kind with
   | 0 => some (0, b)                       -- EmptyFlags::from_u8 always Some, removes nothing
   | 1 => some (b / 128, b % 128)           -- TEFlags: bit 7 = x negative
-  | _ =>                                   -- SWFlags: bit 7 = y negative, bit 6 = infinity; both = invalid
+  | 2 =>                                   -- SWFlags: bit 7 = y negative, bit 6 = infinity; both = invalid
     let neg := b / 128 % 2
     let inf := b / 64 % 2
     if neg == 1 && inf == 1 then none
     else some (if inf == 1 then 2 else if neg == 1 then 1 else 0, b % 64)
+  | k => some (b / 2 ^ (8 - k), b % 2 ^ (8 - k))
 
-def flagBitsOf (kind : Nat) : Nat := match kind with | 0 => 0 | 1 => 1 | _ => 2
+def flagBitsOf (kind : Nat) : Nat := match kind with | 0 => 0 | 1 => 1 | 2 => 2 | k => k
 
 inductive DeErr | io | unexpectedFlags | invalidData
   deriving Repr, BEq, DecidableEq
 
 /-- deserialize_with_flags: reads `(bits + flagBits + 7)/8` bytes into a buffer of `(bits+7)/8` bytes -/
-def deserWithFlags (kind : Nat) (input : List Nat) (modulusLimbs : List Nat) : Except DeErr (Nat × Nat) :=
+def deserWithFlagsWide (kind : Nat) (input : List Nat) (modulusLimbs : List Nat) : Except DeErr (Nat × Nat) :=
+  -- the general shape (as repaired: the buffer has one spare byte, the flags sit in the last byte *read*):
+  -- `bytes = [0; n8 + 1]; read_exact(&mut bytes[..expected]); flags from bytes[expected - 1]; limbs from bytes[..8 * nl]`
   let buflen := (F.bits + 7) / 8
   let expected := (F.bits + flagBitsOf kind + 7) / 8
-  if expected > buflen then .error .io       -- slice index panics in Rust; unreachable for these fields/flags
+  if input.length < expected then .error .io
+  else
+    let bytes := input.take expected
+    match flagsFromU8 kind (bytes.getD (expected - 1) 0) with
+    | none => .error .unexpectedFlags
+    | some (flag, last) =>
+      let bytes := bytes.take (expected - 1) ++ [last] ++ List.replicate (buflen + 1 - expected) 0
+      let limbs := toLimbs 64 (leBytes (bytes.take (8 * F.nl))) F.nl
+      match F.fromBigint limbs modulusLimbs with
+      | none => .error .invalidData
+      | some v => .ok (v, flag)
+
+def deserWithFlags (kind : Nat) (input : List Nat) (modulusLimbs : List Nat) : Except DeErr (Nat × Nat) :=
+  if kind > 2 then deserWithFlagsWide F kind input modulusLimbs else
+  -- the three standard flag types fit into the spare bits of the top byte: `expected = n8` (same function as above; kept in
+  -- the form `C11.flags_roundtrip` is proved about)
+  let buflen := (F.bits + 7) / 8
+  let expected := (F.bits + flagBitsOf kind + 7) / 8
+  if expected > buflen then .error .io
   else if input.length < expected then .error .io
   else
     let bytes := input.take expected ++ List.replicate (buflen - expected) 0
